@@ -193,6 +193,9 @@ func checkC13(c *Ctx) {
 	// the packet size still goes out alone instead of leaving half a message in front of the next batch
 	// (shared with C15 O2)
 	c.shared(checkC15, map[string]string{"O2 bound-check": "O2 transport-limit"})
+	// "appears in exactly one emitted batch": the size a handle is charged with is the calculator's result for
+	// that handle's own template - a bucket is not charged with another bucket's size (round 11; shared with C12 O2/O4b)
+	c.shared(checkC12, map[string]string{"O2 size-provenance": "O2 charged-as-measured", "O4b bucket-tags": "O2 charged-as-measured"})
 	// the bucket tag value renders the open ends as in the StatsD reporter (shared table rule, C18 O2)
 	c.checkM3Renderers("O7 bucket-identity-open-ends")
 
